@@ -123,7 +123,7 @@ def want_view(opts):
     return [(n, v) for n, (k, v) in sorted(opts, key=lambda o: o[0])]
 
 
-def attempt_unprotect(ctx, wire_msg, request_id=None, is_request=True):
+def attempt_unprotect(ctx, wire_msg, request_id=None, is_request=True, direct_fallback=False):
     """the call sequence real callers use; -> ("message", m, rid) | ("rejected", exc) | ("no-context",) | ("other", exc)"""
     oscore = E.setup()
     try:
@@ -131,7 +131,18 @@ def attempt_unprotect(ctx, wire_msg, request_id=None, is_request=True):
         if is_request:
             target = ctx.get_oscore_context_for(unprotected)
             if target is None:
-                return ("no-context",)
+                # no context claims the message.  The statement is about unprotection itself, so the message is also
+                # handed straight to the context: it must refuse it on its own (key ID / ID context of the option
+                # enter neither nonce nor AAD of a request; the comparison in unprotect() is all that detects them)
+                # (only when the option still names a key ID: a request without one is never dispatched to a context,
+                # and for a recipient whose ID is empty "no key ID" and "empty key ID" say the same thing)
+                if not direct_fallback or oscore.COSE_KID not in unprotected:
+                    return ("no-context",)
+                try:
+                    m, rid = ctx.unprotect(wire_msg, request_id)
+                    return ("message", m, rid)
+                except (oscore.ProtectionInvalid, oscore.NotAProtectedMessage):
+                    return ("no-context",)
         else:
             target = ctx.context_from_response(unprotected)
         m, rid = target.unprotect(wire_msg, request_id)
@@ -405,7 +416,7 @@ def run_case(c):
                 wire = clone_wire(tampered)
             except Exception:
                 continue
-            res = attempt_unprotect(rcpt, wire, rid, is_request=(which == "request"))
+            res = attempt_unprotect(rcpt, wire, rid, is_request=(which == "request"), direct_fallback=True)
             labels.add("tamper-" + kind)
             if res[0] == "message":
                 vio.append(V("C11/tampered-message-accepted/%s/%s" % (kind, which), "option %s -> %s, payload changed: %s; yielded %s" % (optraw.hex(), new_opt.hex(), new_payload != payload, res[1])))
